@@ -118,7 +118,9 @@ func createStepCmafIngesterHdlr(s *Server) func(ctx context.Context, input *idIn
 		if ci.state == ingesterStateStopped {
 			return nil, huma.Error410Gone(fmt.Sprintf("CMAF ingest %s has stopped", input.Id))
 		}
-		ci.triggerNextSegment()
+		if !ci.triggerNextSegment() {
+			return nil, huma.Error410Gone(fmt.Sprintf("CMAF ingest %s has stopped", input.Id))
+		}
 		resp := &CmafIngestStepResponse{}
 		resp.Body.ID = fmt.Sprintf("Stepped %s!", input.Id)
 		return resp, nil
